@@ -25,7 +25,8 @@ RULE = ("all (n+1)^n functional graphs on n=1..5 resource ids x {plain reference
 ASSUMPTIONS = [
     "gen/arscgen.py writes well-formed tables (validated against shipped tables, see C28)",
     "termination is decided by an interpreter-event budget (sys.monitoring), never by wall clock; the budget is >= 50x the "
-    "cost of the longest acyclic chain in the space",
+    "cost of the longest acyclic chain in the space; during a query the recursion limit is 200 frames above the harness "
+    "(>= 4x what the longest acyclic chain needs, checked in finalize)",
     "only the set of concrete values is judged (multiplicity / configuration labels belong to C28); APK.get_app_name / "
     "get_app_icon on top of the resolver are not driven here",
 ]
@@ -42,6 +43,7 @@ MANIFEST = {
 }
 
 BUDGET = 400000
+FRAMES = 200            # Python frames a query may stack on top of the harness (longest legal chain: measured < FRAMES / 4)
 NSHARDS = 32
 KINDS = ["plain", "complex-back-ref"]
 MAXN = 5
@@ -101,11 +103,29 @@ def classify(n, f, node):
     return "cycle-len%s" % (clen if clen < 3 else "3+"), clen, tail
 
 
-def judge_query(a, ref, rid, budget=BUDGET):
-    """Returns (message or None, events, outcome tag)."""
+def _depth():
+    import sys
+    f, d = sys._getframe(), 0
+    while f is not None:
+        f, d = f.f_back, d + 1
+    return d
+
+
+def judge_query(a, ref, rid, budget=BUDGET, frames=FRAMES):
+    """Returns (message or None, events, outcome tag).
+    The interpreter's recursion limit is lowered to `frames` above the harness while the query runs: a resolver that
+    recurses once per reference hop needs ~4 frames per hop (<= 5 hops here), so a legal resolution cannot notice, while a
+    runaway recursion is cut after 200 instead of 1000 frames (unwinding 1000 frames ~60 000 times is what made this check
+    take tens of minutes on a tree without cycle detection)."""
+    import sys
     from mc.budget import run_with_budget
     from ref import resolver as RR
-    status, val, events = run_with_budget(lambda: a.get_resolved_res_configs(rid), budget)
+    old = sys.getrecursionlimit()
+    sys.setrecursionlimit(_depth() + frames)
+    try:
+        status, val, events = run_with_budget(lambda: a.get_resolved_res_configs(rid), budget)
+    finally:
+        sys.setrecursionlimit(old)
     if status == "budget":
         return "get_resolved_res_configs(0x%08x) did not finish within %d interpreter events" % (rid, budget), events, "budget"
     if status == "exc":
@@ -219,9 +239,12 @@ def finalize(ctx, acc):
         a = axml.ARSCParser(G.serialise(t))
         a._analyse()
         msg, events, tag = judge_query(a, RR.RefResolver(t), t.resid(0, 0, 0))
-        if kind == "plain" and msg:
-            pass        # judged in the exploration; calibration only needs the count
         worst = max(worst, events)
+        # the lowered recursion limit must be far from what a legal resolution needs: the longest chain has to pass with
+        # a quarter of the frames as well (skipped when it fails even with the full allowance: that is a finding, not vacuity)
+        msg4, _e, tag4 = judge_query(a, RR.RefResolver(t), t.resid(0, 0, 0), frames=FRAMES // 4)
+        if msg is None and msg4 is not None:
+            acc.harness_error("the longest acyclic chain needs more than %d frames: %s" % (FRAMES // 4, msg4))
     acc.count("events_longest_acyclic_chain", worst)
     if worst * 50 > BUDGET:
         acc.harness_error("budget %d is less than 50x the longest acyclic chain (%d events)" % (BUDGET, worst))
